@@ -13,3 +13,5 @@ open RawPanelVerif.C09
 #print axioms single_writer
 #print axioms taken_while_connected_written_to_live_conn
 #print axioms stale_writer_counterexample
+#print axioms repaired_is_the_source_layout
+#print axioms source_layout_readOnly
